@@ -310,6 +310,17 @@ def formatter_validation(ctx, state):
             "case": c, "options": {"empty_line_after_prod": w[1][0] == "1", "prod_semicolon_on_nl": w[1][1] == "1", "max_line_length": int(w[2])},
             "text": unhex(w[3]), "impl_reply": r[:2000], "oracle": v, "attribution_attempt": detail,
             "further": [t[0][:400] for t in new[1:8]], "count": len(new)})
+    # the direct call used above (parse_document + DocumentState::format with the server's settings written into the
+    # options) against a real Server (didOpen + textDocument/formatting, default settings) on the corpus and the probes
+    probe = [c for c in cases if c.split()[1:3] == ["11", "100"]][:40]
+    a = j.impl([f"fmt-show 11 100 {c.split()[3]}" for c in probe])
+    b = j.impl([f"fmt-server {c.split()[3]}" for c in probe])
+    server_diff = [c for c, x, y in zip(probe, a, b) if x != y and not (x.startswith("panic") or y.startswith("panic") or x == "" or y == "")]
+    server_same = sum(1 for x, y in zip(a, b) if x == y and x.startswith("ok "))
+    if server_diff:
+        common.violation(ctx, "C27_server_path.json", {
+            "kind": "the harness's direct formatter call and the server's textDocument/formatting handler return different texts (the harness no longer mirrors Server::handle_formatting)",
+            "case": server_diff[0], "count": len(server_diff)}, no_input=True)
     judged = len(cases) - unparsable
     state["coverage_extra"] = {
         "programs": judged,
@@ -320,6 +331,7 @@ def formatter_validation(ctx, state):
             "verdict_classes": classes,
             "attributed_to_known_findings": {k: len(v) for k, v in hits.items()},
             "unattributed": len(new),
+            "direct_call_vs_real_Server_request_same_text": f"{server_same} of {len(probe)} (the rest panics on both paths: F17)",
             "option_combinations": "empty_line_after_prod x prod_semicolon_on_nl x max_line_length in {1, 30, 100, 1000} = 16",
             "rule": "4 probe grammars (together every PAR construct) x every token boundary (start and end of every significant token, start and end of text) x "
                     "{line comment, block comment} (+ multi-line block / two line comments at every third boundary; thorough: everywhere) with the option combination rotating, "
